@@ -125,15 +125,22 @@ func run(repo string) (string, error) {
 	if err != nil {
 		return "", err
 	}
-	var offs []string
+	var offs, notes []string
 	for _, site := range [][2]string{{"PriPoly", "Eval"}, {"PubPoly", "Eval"}, {"", "xScalar"}, {"", "RecoverCommit"}} {
 		fd := ex.FuncDecl(fp, site[0], site[1])
 		if fd == nil {
-			return "", fmt.Errorf("share/poly.go: %s.%s not found", site[0], site[1])
+			notes = append(notes, fmt.Sprintf("share/poly.go: %s.%s not found", site[0], site[1]))
+			offs = append(offs, "999999")
+			continue
 		}
 		o, err := evalOffset(fd)
 		if err != nil {
-			return "", err
+			// the site no longer has the expected form (moved into a helper, another expression …): the fact
+			// file must still compile – the driver is built from the model and the group orders only and the
+			// model comparison has to run on a tree whose facts break – so the site gets a sentinel that
+			// `c09_code_facts` rejects
+			notes = append(notes, err.Error())
+			o = "999999"
 		}
 		offs = append(offs, o)
 	}
@@ -159,7 +166,7 @@ func run(repo string) (string, error) {
 		})
 	}
 	if idxType == "" || order16 == "" {
-		return "", fmt.Errorf("sign/tbls/tbls.go: SigShare.Index: index type / byte order not found")
+		notes = append(notes, "sign/tbls/tbls.go: SigShare.Index: index type / byte order not found")
 	}
 	width := map[string]int{"uint8": 1, "uint16": 2, "uint32": 4, "uint64": 8}[idxType]
 	s := ex.Header("TblsFacts", "group/bn256/constants.go, group/edwards25519/const.go, share/poly.go, sign/tbls/tbls.go")
@@ -170,6 +177,9 @@ func run(repo string) (string, error) {
 	s += fmt.Sprintf("/-- `SetInt64(k + int64(i))` in PriPoly.Eval, PubPoly.Eval, xScalar, RecoverCommit -/\ndef shareEvalOffsets : List Nat := [%s]\n", strings.Join(offs, ", "))
 	s += fmt.Sprintf("def tblsIndexBytes : Nat := %d\n", width)
 	s += fmt.Sprintf("def tblsIndexBigEndian : Bool := %v\n", order16 == "BigEndian")
+	for _, nt := range notes {
+		s += "-- NOTE (sentinel 999999 / 0 above): " + strings.ReplaceAll(nt, "\n", " ") + "\n"
+	}
 	s += "end Dos.Gen\n"
 	sh, err := shapes(repo)
 	if err != nil {
